@@ -21,6 +21,7 @@ import (
 	"github.com/hashicorp/nodeenrollment/zzverif/vf"
 	"github.com/hashicorp/nodeenrollment/zzverif/vfs"
 	"google.golang.org/protobuf/proto"
+	"google.golang.org/protobuf/types/known/timestamppb"
 )
 
 func init() { VfHarnesses["VerifC17Routing"] = VerifC17Routing }
@@ -178,11 +179,16 @@ func VerifC17Routing() {
 func init() { VfHarnesses["VerifC17LateRegistration"] = VerifC17LateRegistration }
 
 // vfNodePeer is an authenticated node (universe key 2, leaf under the current root) offering one extra protocol name.
-func vfNodePeer(leaf []byte, nonce []byte, name string) *vfs.Peer {
+func vfNodePeer(leaf []byte, nonce []byte, name string, nameFirst bool) *vfs.Peer {
 	reqBytes, _ := proto.Marshal(&types.GenerateServerCertificatesRequest{CertificatePublicKeyPkix: vf.Pkix(2), Nonce: nonce, NonceSignature: vf.SigBy(2, nonce)})
 	protos, _ := nodetls.BreakIntoNextProtos(nodeenrollment.AuthenticateNodeNextProtoV1Prefix, base64.RawStdEncoding.EncodeToString(reqBytes))
 	prefId, _ := nodeenrollment.KeyIdFromPkix(vf.Pkix(0))
-	protos = append(protos, name, nodeenrollment.CertificatePreferenceV1Prefix+prefId)
+	if nameFirst { // a client may list its own protocol ahead of the library's entries: routing does not depend on the order
+		protos = append([]string{name}, protos...)
+		protos = append(protos, nodeenrollment.CertificatePreferenceV1Prefix+prefId)
+	} else {
+		protos = append(protos, name, nodeenrollment.CertificatePreferenceV1Prefix+prefId)
+	}
 	peer := &vfs.Peer{Protos: protos, Chain: [][]byte{leaf}, HoldsLeafKey: true}
 	peer.Conn = vf.AdversaryConn(peer.Protos, peer.Chain, 2, true)
 	return peer
@@ -212,8 +218,22 @@ func VerifC17LateRegistration() {
 	if vf.Bool("nodes-offer-the-specific-name") {
 		name = "special"
 	}
-	first := vfNodePeer(leaf, []byte("the-first-connection-nonce-32-by"), name)
-	second := vfNodePeer(leaf, []byte("the-second-connection-nonce-32-b"), name)
+	nameFirst := vf.Bool("nodes-list-the-extra-name-first")
+	first := vfNodePeer(leaf, []byte("the-first-connection-nonce-32-by"), name, nameFirst)
+	second := vfNodePeer(leaf, []byte("the-second-connection-nonce-32-b"), name, nameFirst)
+	if vf.Bool("first-connection-is-a-credential-fetch") {
+		// a node that is not authorized yet: its fetch is answered inside the handshake, Accept reports a temporary error
+		// and the split listener keeps running
+		info := &types.FetchNodeCredentialsInfo{CertificatePublicKeyPkix: vf.Pkix(3), CertificatePublicKeyType: types.KEYTYPE_ED25519,
+			Nonce: []byte("an-unregistered-nodes-nonce-32-b"), EncryptionPublicKeyBytes: vf.X25519Pub(0), EncryptionPublicKeyType: types.KEYTYPE_X25519,
+			NotBefore: timestamppb.New(t0.Add(-time.Hour)), NotAfter: timestamppb.New(t0.Add(time.Hour))}
+		bundle, _ := proto.Marshal(info)
+		freq, _ := proto.Marshal(&types.FetchNodeCredentialsRequest{Bundle: bundle, BundleSignature: vf.SigBy(3, bundle)})
+		fprotos, _ := nodetls.BreakIntoNextProtos(nodeenrollment.FetchNodeCredsNextProtoV1Prefix, base64.RawStdEncoding.EncodeToString(freq))
+		ftmpl := vfs.RootTemplate(6, t0.Add(-time.Hour), t0.Add(time.Hour))
+		first = &vfs.Peer{Protos: fprotos, Chain: [][]byte{vfs.MkCert(ftmpl, ftmpl, 6, 6)}, HoldsLeafKey: true}
+		first.Conn = vf.AdversaryConn(first.Protos, first.Chain, 6, true)
+	}
 	baseClosed, arrive := make(chan struct{}), make(chan struct{})
 	script := &vfs.Script{Conns: []net.Conn{first, second}, Errs: []error{nil, nil}, Hold: baseClosed, Gate: arrive, GateAt: 1}
 	il, err := protocol.NewInterceptingListener(&protocol.InterceptingListenerConfiguration{Context: ctx, Storage: st, BaseListener: vfAddrListener{script}})
